@@ -3,6 +3,7 @@ import QRV.Model.Micro
 import QRV.Model.RMQR
 import QRV.Spec.Valid
 import QRV.Lemmas.TablesFinite
+import QRV.Lemmas.CalcVersion
 /-
 C05 — New picks the smallest symbol that fits and rejects only what cannot fit.
 
@@ -19,7 +20,7 @@ def QRMode (m : Nat) : Prop := m = 1 ∨ m = 2 ∨ m = 4 ∨ m = 8
 class (kanji counted per character) -/
 theorem qr_length_agrees (s : Segment) (v : Nat) (hm : QRMode s.mode) (h1 : 1 ≤ v) (h40 : v ≤ 40) :
     Model.QR.segLength s (v : Int) = .ok (QR.segBits s v) := by
-  sorry
+  exact Lemmas.CalcVersion.qr_length_agrees s v hm h1 h40
 
 /-- total standard bit length of a segment list -/
 def totalBits (segs : List Segment) (v : Nat) : Nat := (segs.map fun s => QR.segBits s v).sum
@@ -33,7 +34,7 @@ theorem qr_calcVersion_minimal (level : Nat) (hl : level < 4) (segs : List Segme
     ∃ v : Nat, Model.QR.calcVersion (level : Int) segs = .ok (v : Int) ∧ v ≤ 40 ∧
       (v ≠ 0 → totalBits segs v ≤ capBits v level ∧ ∀ v', 1 ≤ v' → v' < v → capBits v' level < totalBits segs v') ∧
       (v = 0 → ∀ v', 1 ≤ v' → v' ≤ 40 → capBits v' level < totalBits segs v') := by
-  sorry
+  exact Lemmas.CalcVersion.qr_calcVersion_minimal level hl segs hm
 
 /-- rMQR: the height and width orders are sorted by that measure (kernel evaluation), so a first
 fit over them is a version of least height / width -/
@@ -66,7 +67,7 @@ theorem rmqr_calcVersion_first_fit (level prio : Nat) (hl : level < 2) (hp : pri
       (∀ v, r = some v → rmFits level segs v ∧
         ∃ i : Nat, (rmOrder prio)[i]? = some v ∧ ∀ j : Nat, j < i → ∀ v', (rmOrder prio)[j]? = some v' → ¬ rmFits level segs v') ∧
       (r = none → ∀ v ∈ rmOrder prio, ¬ rmFits level segs v) := by
-  sorry
+  exact Lemmas.CalcVersion.rmqr_calcVersion_first_fit level prio hl hp segs
 
 /-! non-vacuity -/
 example : Model.QR.calcVersion 0 [{ mode := 1, data := List.replicate 41 0x31 }] = .ok 2 := by decide +kernel
